@@ -77,7 +77,8 @@ def hostile_programs(pairs=False):
     pre = ("var depth = 0; var a = [1, 2, 3, 4, 5, 6]; var buf = new ArrayBuffer(8); var rab = new ArrayBuffer(8, {maxByteLength: 16}); var ta = new Uint8Array(rab); var n = 0;\n")
     out = []
     for it in ITERATORS:
-        for m in ([a + "; " + b for a in MUTATIONS for b in MUTATIONS if "throw" not in a] if pairs else MUTATIONS):
+        # (the pair {length = 100000, 50 x unshift} is left out: 40 callbacks x 50 unshifts over 100000 indices is finite but outlasts the watchdog)
+        for m in ([a + "; " + b for a in MUTATIONS for b in MUTATIONS if "throw" not in a and not ("100000" in a + b and "unshift" in a + b)] if pairs else MUTATIONS):
             out.append(pre + "var cb = function () { if (n++ < 40) { " + m + " } return 0 };\ntry { " + it + " } catch (e) { print('E', typeof e == 'object' && e ? e.name : e) } print(n > 0, Array.isArray(a) ? a.length : a);")
     return out
 
